@@ -114,10 +114,14 @@ impl CountComputer {
                         if total_kmers_so_far_clone.load(Ordering::Relaxed)
                             > (1_000_000_000_f64 * self.memory_ceil_gb / 8.0) as u64
                         {
+                            #[cfg(feature = "verif")]
+                            ktio::verif::point("ctr.exit", usize::MAX);
                             break;
                         }
                         let record = { records_arc_clone.lock().unwrap().next() };
                         if let Some(record) = record {
+                            #[cfg(feature = "verif")]
+                            ktio::verif::point("ctr.taken", record.n);
                             pbar.inc(1);
                             total_records_clone.fetch_add(1, Ordering::Acquire);
                             for (fmer, rmer) in KmerGenerator::new(&record.seq, self.ksize) {
@@ -135,6 +139,8 @@ impl CountComputer {
                                 .fetch_add(record.seq.len() as u64, Ordering::Relaxed);
                         } else {
                             // end of iteration
+                            #[cfg(feature = "verif")]
+                            ktio::verif::point("ctr.exit", usize::MAX);
                             break;
                         }
                     }
